@@ -1092,6 +1092,31 @@ pub fn units() -> Vec<Unit> {
             TraitFn("RegionHandler", "FixedChannelPlan", "select_tx_channel"),
         ],
     },
+    // C01 / C02 (builder A): securityhelpers.rs — the B0 / A_i helper block, the data MIC, the join MIC and the in-place
+    // FRMPayload keystream loop.  Abstract: the trait object `&dyn Crypto` (a record of its two methods, exactly what
+    // the hand model's `Crypto` = (Cipher, key) provides).  Translated for real: `[0; 16]`, `&mut b0[..16]` passed to a
+    // callee (slice out, call, copy back), `copy_from_slice`, `as u8`, the `for i in 0..len` loop with its `u8` counter,
+    // `phy_payload[start + i] ^= s[j]`.
+    Unit {
+        module: "Gen.CodecFn",
+        file: "lorawan-encoding/src/securityhelpers.rs",
+        more_files: vec!["lorawan-encoding/src/keys.rs", "lorawan-encoding/src/creator.rs", "lorawan-encoding/src/packet_length.rs"],
+        imports: vec![],
+        items: vec![
+            Newtype("MIC"),
+            Raw(CODEC_FN_RAW),
+            ExternStructRaw("Crypto", &[]),
+            ExternFnX("Crypto::calculate_mic", "Crypto.calculate_mic", &[("self", "Crypto"), ("b0", "[u8]"), ("data", "[u8]")], "[u8; 4]", &[], false),
+            ExternFnX("Crypto::encrypt_block", "Crypto.encrypt_block", &[("self", "Crypto"), ("block", "[u8]")], "", &["block"], true),
+            Fn("generate_helper_block"),
+            Fn("calculate_data_mic"),
+            Fn("calculate_mic"),
+            Fn("encrypt_frm_data_payload"),
+            // creator.rs: the MIC of the join messages written behind the frame
+            Const("MIC_LEN"),
+            Fn("write_mic"),
+        ],
+    },
     ]
 }
 
@@ -1521,4 +1546,11 @@ const PLAN_SELECT_RAW2: &str = r#"/-- the bank walk `JoinChannels::get_next_chan
 class JcOps (RNG : Type) where
   get_next_channel : JoinChannels → RNG → Option (Int × JoinChannels × RNG)
 variable [JcOps RNG]
+"#;
+
+const CODEC_FN_RAW: &str = r#"/-- the trait object `&dyn Crypto` (keys.rs), bound to its key: `calculate_mic(&self, b0, data) -> [u8; 4]` and
+`encrypt_block(&self, block: &mut [u8])` (state passing: the block afterwards; `none` = panic) -/
+structure Crypto where
+  calculate_mic : List Int → List Int → List Int
+  encrypt_block : List Int → Option (List Int)
 "#;
